@@ -1,5 +1,5 @@
 """C07 — dual hashes: canonical storage discipline of the RLE side table (structural clauses)."""
-from ..rules import tail, fields, eqord, parser, panic, rle, normal, casts, vis, features, summary
+from ..rules import tail, fields, eqord, parser, panic, rle, normal, casts, vis, features, summary, beliefs
 
 EXPL = ("Decides: SA-TAIL: on every construction route the RLE block is terminator-filled from the encoder's final offset to the end and "
         "the normalised block hash is zero-filled from its stored length; every write into an RLE block anywhere in the crate is "
@@ -33,6 +33,8 @@ def run(ctx):
         ctx.guard("C07", "expand-copy", lambda: rle.expand_copy(ctx, prog))
         ctx.guard("C07", "summaries", lambda: summary.check(ctx, prog, 'hash_dual::', floor=10))
         ctx.guard("C07", "path summaries", lambda: summary.check_paths(ctx, prog, 'hash_dual::', floor=4))
+        if c in ("dbg", "unsafe_dbg", "strict_dbg"):
+            ctx.guard("C07", "beliefs", lambda: beliefs.census(ctx, prog, beliefs.SCOPES["C07"][0], floor=beliefs.SCOPES["C07"][1]))
         ctx.guard("C07", "traits", lambda: vis.trait_census(ctx, prog, scope='hash_dual::'))
         if c == "unchecked":
             ctx.guard("C07", "twins", lambda: features.twins(ctx, prog, scope='FuzzyHashDualData', floor=2))
